@@ -16,7 +16,7 @@ DESCRIPTION = {
              "are the effective payload XOR the frame's key.  Receive side through the protocol: a scripted peer sends masked frames (consecutive frames with the same key, other keys, the zero key; all length "
              "classes; fragments; drawn read chunking) to a library server, each message must arrive as data XOR key.  Mask policy: wire log of library client/server pairs through every send API (sendMessage with and without fragmentation, "
              "frame-wise, streaming, prepared): every client frame masked, no server frame masked, and no two client frames share a key (the 32-bit key draw is replaced by a "
-             "collision-free sequence inside the check, so an equal key means that no new key was drawn)."),
+             "collision-free sequence inside the check, so an equal key means that no new key was drawn). The public factory is also called without its optional length hint (create_xor_masker(key), (key, None)) and with a hint that differs from what is processed (127 / 128)."),
     "assumptions": [
         "native code is compiled from the working tree's src/autobahn/nvx/_xormasker.c with cffi on every run",
         "SIMD paths: only those the sandbox compiler/CPU enable (SSE2); reported in notes",
